@@ -13,6 +13,7 @@
   under the modelled locks (e.g. GetCacheSize), the squashfs readers above the cache.
 -/
 import DiskfsModel.Proofs.Lru
+import DiskfsModel.Proofs.LruClient
 import DiskfsModel.Generated.Lru
 namespace Diskfs.Lru.C17
 
@@ -190,6 +191,86 @@ theorem sequential_reader (disk : Pos → Data) {slack : Nat} (hs : 1 ≤ slack)
       (by simp [measure, init, Thread.measure, pcRank])
   exact ⟨hd, seq_equiv disk hs maxBlocks [prog] _ hok hd⟩
 
+/-! ### the read paths above the cache: concurrent = sequential
+
+  A goroutine of the squashfs reader touches shared mutable state only through `lru.get` /
+  `lru.setMaxBlocks` (`facts_agree_no_shared_writes`, `facts_agree_cached_slices_read_only`): it is
+  a `Client` — any deterministic strategy that picks its next cache call from what the earlier calls
+  returned.  `File.Read` / `Seek` / `SetCacheSize` programs on one handle are the client `handleC`
+  (Model/LruFile.lean: data blocks straight from the device or from the handle's own last block, the
+  tail through ONE cache get, `outputBlock` assembling the answer). -/
+
+/-- the machine started on clients: thread `t` runs the calls client `t` makes when it reads alone -/
+def reachC {ρ} (disk : Pos → Data) (slack : Nat) (maxBlocks : Int) (cs : List (Client ρ)) (sched : List Tid) : Sys :=
+  reach disk slack maxBlocks (cs.map (Client.ops disk)) sched
+
+/-- clients_adaptive: in EVERY reachable state, for every number of clients, every initial cache size
+    and every schedule, each client — fed with the values its calls have really returned so far — is
+    about to make exactly the call its thread is executing and then the calls its thread still has to
+    do, and will give the lone reader's answer.  So running the lone-reader programs on the machine IS
+    running the adaptive clients: what a client does next never depends on the other threads. -/
+theorem clients_adaptive {ρ} (disk : Pos → Data) {slack : Nat} (hs : 1 ≤ slack) (maxBlocks : Int)
+    (cs : List (Client ρ)) (sched : List Tid) (t : Tid) (th : Thread) (c : Client ρ)
+    (ht : (reachC disk slack maxBlocks cs sched).threads[t]? = some th) (hc : cs[t]? = some c) :
+    ∃ c', c.feed th.rets = some c' ∧ c'.ops disk = (curOp th.pc).toList ++ th.prog ∧
+      c'.result disk = c.result disk :=
+  clients_follow (reach_inv disk hs maxBlocks _ sched) cs (calls_are_program disk hs maxBlocks _ sched) t th c ht hc
+
+/-- concurrent_equals_sequential: when all have finished, every client has arrived — along the values
+    it really received, whatever the interleaving, the cache size and the resizes by other threads were
+    — at the answer it gives when it runs alone. -/
+theorem concurrent_equals_sequential {ρ} (disk : Pos → Data) {slack : Nat} (hs : 1 ≤ slack) (maxBlocks : Int)
+    (cs : List (Client ρ)) (sched : List Tid) (hdone : allDone (reachC disk slack maxBlocks cs sched) = true)
+    (t : Tid) (th : Thread) (c : Client ρ)
+    (ht : (reachC disk slack maxBlocks cs sched).threads[t]? = some th) (hc : cs[t]? = some c) :
+    c.feed th.rets = some (.done (c.result disk)) := by
+  obtain ⟨c', hf, ho, hr⟩ := clients_adaptive disk hs maxBlocks cs sched t th c ht hc
+  have hd : Thread.done th = true := List.all_eq_true.1 hdone th (List.mem_of_getElem? ht)
+  simp only [Thread.done, Bool.and_eq_true, beq_iff_eq, List.isEmpty_iff] at hd
+  rw [hd.1, hd.2] at ho
+  obtain ⟨r, rfl⟩ := (Client.ops_nil_iff disk c').1 (by simpa [curOp] using ho)
+  rw [hf, ← hr]; rfl
+
+/-- one goroutine per handle: handle `i` is a file and a program of Read / Seek / SetCacheSize calls -/
+def handleClients (im : Image) (hs : List (FileD × List HOp)) : List (Client (List HRes)) :=
+  hs.map fun x => handleC im x.1 HSt.fresh x.2 []
+
+/-- handles_sequential: for every number of handles (any of them on the same file), every program of
+    Read / Seek / SetCacheSize calls per handle, every initial cache size and every schedule: when all
+    have finished, each handle has answered, call by call, what it answers when it is the only reader of
+    the image (`(handleC …).result`: bytes, EOF / error, cursor, and which data blocks it read from the
+    device).  In particular the answers do not depend on the resize schedule. -/
+theorem handles_sequential (im : Image) (disk : Pos → Data) {slack : Nat} (hs : 1 ≤ slack) (maxBlocks : Int)
+    (handles : List (FileD × List HOp)) (sched : List Tid)
+    (hdone : allDone (reachC disk slack maxBlocks (handleClients im handles) sched) = true)
+    (t : Tid) (th : Thread) (f : FileD) (prog : List HOp)
+    (ht : (reachC disk slack maxBlocks (handleClients im handles) sched).threads[t]? = some th)
+    (hh : handles[t]? = some (f, prog)) :
+    (handleC im f HSt.fresh prog []).feed th.rets =
+      some (.done ((handleC im f HSt.fresh prog []).result disk)) :=
+  concurrent_equals_sequential disk hs maxBlocks _ sched hdone t th _ ht
+    (by simp [handleClients, List.getElem?_map, hh])
+
+/-- fair_completion ('always finish'): a schedule made of rounds in each of which every thread gets at
+    least one turn completes every call of every thread within `8 · (total number of cache calls)`
+    rounds — whatever else the rounds contain, for every cache size and resize pattern (fetches
+    terminate).  With `no_deadlock`: a get is never stuck, and is done after boundedly many rounds. -/
+theorem fair_completion (disk : Pos → Data) {slack : Nat} (hs : 1 ≤ slack) (maxBlocks : Int)
+    (progs : List (List Op)) (rounds : List (List Tid))
+    (hf : ∀ r ∈ rounds, FairRound progs.length r) (hk : 8 * (progs.map List.length).sum ≤ rounds.length) :
+    allDone (reach disk slack maxBlocks progs rounds.flatten) = true := by
+  have hm : ∀ progs : List (List Op), measure (init maxBlocks progs) = 8 * (progs.map List.length).sum := by
+    intro progs
+    simp only [measure, init, List.map_map]
+    induction progs with
+    | nil => rfl
+    | cons p ps ih =>
+      simp only [List.map_cons, List.sum_cons, Function.comp, Thread.measure, pcRank] at ih ⊢
+      omega
+  have hm' := hm progs
+  exact Diskfs.Lru.fair_completion hs rounds _ (init_inv disk maxBlocks progs)
+    (by simpa [init] using hf) (by omega)
+
 /-! ### the machine's thread programs are the lock/unlock/fetch sequences of lru.go (regenerated facts) -/
 
 /-- `get`: lock cache; lookup, add | unlink+push; LOCK THE BLOCK WHILE STILL HOLDING THE CACHE LOCK;
@@ -232,5 +313,20 @@ example : (reach (fun p => p.toNat) 1 (-3) [[.get 5 true, .setMax (-1)]] (List.r
 example : ((reach (fun p => p.toNat) 0 2 [[.get 1 true, .get 2 true, .get 3 true]] (List.replicate 24 0)).c.cache.length : Int) = 3 := by decide
 example : allFetchOk [[.get 1 true, .setMax 0]] := by
   intro p hp op hop pos; simp at hp; subst hp; simp at hop; rcases hop with rfl | rfl <;> simp
+
+/-- a client whose second call depends on what the first returned; two of them and a resizer on a
+    one-block cache, interleaved: both end with the lone reader's answer -/
+example :
+    let disk : Pos → Data := fun p => (p * 7).toNat
+    let c : Client Nat := .get 1 fun r => match r with
+      | some d => .get (Int.ofNat d) fun r2 => .done (r2.getD 0)
+      | none => .done 0
+    let z : Client Nat := .setMax 0 (.done 0)
+    let s := reachC disk 1 1 [c, c, z] [1, 1, 1, 1, 0, 1, 0, 1, 1, 1, 0, 0, 2, 0, 2, 0, 2, 1, 1, 1, 1, 0, 1, 0, 1, 1, 1, 0, 0, 0, 0]
+    allDone s = true ∧ c.result disk = 49 ∧
+      s.threads.map (fun th => (c.feed th.rets).map (·.isDone)) = [some true, some true, none] := by decide
+/-- fair rounds: three threads, round-robin -/
+example : FairRound 3 [2, 0, 1, 1] := by intro t ht; have : t = 0 ∨ t = 1 ∨ t = 2 := by omega
+                                         rcases this with rfl | rfl | rfl <;> simp
 
 end Diskfs.Lru.C17
